@@ -179,5 +179,15 @@ let () =
               else "ok"
           | _ -> "fail:no-answer" in
         Mlutil.print_model fields verdict
+    | "lower", [f] ->
+        let l = str_of_field f in
+        let ascii = List.for_all (fun c -> int_of_n c < 128) l in
+        let impl = (match outs with [o] -> o | _ -> "?") in
+        (* the model of strings.ToLower: ASCII lower-casing on ASCII-only strings, anything otherwise (echo) *)
+        let m = if ascii then field_of_str (lower l) else impl in
+        Mlutil.print_model [m] (if ascii && impl <> m then "fail:tolower-is-not-ascii-lowering-on-ascii" else "ok")
+    | "valid", [f] ->
+        let d = str_of_field f in
+        finish [field_of_bool (validate_domain pip d)] "ok"
     | "live", _ -> live pip iptab ins outs
     | _ -> Mlutil.print_model ["UNKNOWN-KIND"] "ok")
